@@ -116,6 +116,27 @@ def impl_functions():
                  '_look_for_last_index_of_unlabelled_number_token', '_look_for_last_index_of_literal_token'):
         fs['nt' + meth] = (lambda m: lambda strs, flag, opt, num=0: str(_bounded(getattr(y, m), strs[0], num)))(meth)
     fs['nt_look_for_tokens'] = lambda strs, flag, opt, num=0: "".join(t + "\x01" for t in _bounded(y._look_for_tokens, strs[0]))
+    def show_obj(o):
+        k = type(o).__name__
+        if k == 'Literal':
+            return 'L' + str(o) + "\x01" + o.elem_type
+        return {'IRI': 'I', 'BNode': 'B', 'Property': 'P'}[k] + str(o)
+
+    def with_stub(f):
+        def g(strs, flag, opt, num=0):
+            saved = uri.urljoin
+            uri.urljoin = _stub
+            try:
+                return f(strs, flag, opt, num)
+            finally:
+                uri.urljoin = saved
+        return g
+    fs['parse_literal'] = with_stub(lambda strs, flag, opt, num: "\x01".join(uri.parse_literal(strs[0], opt)))
+    fs['parse_unquoted_literal'] = with_stub(lambda strs, flag, opt, num: "\x01".join(uri.parse_unquoted_literal(strs[0])))
+    fs['tune_subj'] = lambda strs, flag, opt, num=0: show_obj(ty.tune_subj(strs[0], raise_error_if_no_corners=flag))
+    fs['tune_prop'] = lambda strs, flag, opt, num=0: show_obj(ty.tune_prop(strs[0], raise_error_if_no_corners=flag))
+    fs['tune_token'] = with_stub(lambda strs, flag, opt, num: show_obj(ty.tune_token(strs[0], allow_untyped_numbers=flag, raise_error_if_no_corners=(num != 0),
+                                                                                     base_namespace=opt)))
     tt = importlib.import_module("shexer.io.graph.yielder.big_ttl_triples_yielder")
     ty_ = tt.BigTtlTriplesYielder(raw_graph="")
     fs['ttl_remove_comments_if_needed'] = lambda strs, flag, opt, num=0: _bounded(ty_._remove_comments_if_needed, strs[0])
@@ -185,6 +206,32 @@ def gen_ttl(rng):
         qs = [i + 1 for i, c in enumerate(line) if c == '"']
         num = rng.choice(qs) if qs else num
     return "G %s %d %s" % (name, num, enc(line)), (name, [line], False, None, num)
+
+
+TUNE_FUNCS = ['parse_literal', 'parse_unquoted_literal', 'tune_subj', 'tune_prop', 'tune_token']
+
+
+def gen_tune(rng):
+    """tokens as the line readers cut them; numbers within the grammar the float() stand-in of the driver knows (sign, digits, one dot)"""
+    name = rng.choice(TUNE_FUNCS)
+    r = rng.random()
+    if r < 0.35:
+        tok = '"' + rstr(rng, ['a', ' ', '\\"', '@', '^^', '#', '<', '>', 'xsd:', 'é', '1'], 0, 4) + '"' + rng.choice(
+            ['', '', '@en', '@en-GB', '^^<http://e/dt>', '^^<rel>', '^^xsd:integer', '^^rdf:langString', '^^dt:usDollar', '^^geo:wktLiteral', '^^ex:dt', '^^', '^^<http://e/dt', ' '])
+    elif r < 0.55:
+        tok = rng.choice(['<http://e/a>', '<http://e/a#b>', '<urn:x:y>', '<http://e/a', 'http://e/a>', '<>', '<', '< a >'])
+    elif r < 0.7:
+        tok = rng.choice(['_:b0', '_:', '_:a.b', '[]', ' [] ', '[ ]', '_b'])
+    elif r < 0.9:
+        tok = rng.choice(['', '+', '-']) + rng.choice(['0', '7', '12', '007', '', '3.0', '3.5', '.5', '5.', '1.2.3', '12a', '0.000', '-1', '1 ']) + rng.choice(['', '', ' ', '.0'])
+    else:
+        tok = rstr(rng, PIECES, 0, 4)
+    flag = rng.random() < 0.5
+    num = rng.randint(0, 1)
+    opt = None if rng.random() < 0.6 else rng.choice(['http://base.example/', 'http://b/x#'])
+    if any(ch in tok for ch in 'eEnN_') and name == 'tune_token' and not tok.startswith(('<', '"', '_:')):
+        flag = False       # exponents, inf / nan, digit separators: outside the stand-in's grammar
+    return "H %s %d %d %s %s" % (name, 1 if flag else 0, num, 'N' if opt is None else enc(opt), enc(tok)), (name, [tok], flag, opt, num)
 
 
 def gen_nt(rng):
@@ -290,6 +337,8 @@ def run(rng, n, names=None, prebuilt=None):
             ln, (name, strs, flag, opt, num) = gen_nt(rng)
         elif k % 4 == 1 and all(x in fs for x in TTL_FUNCS) and (names_given is None or any(x in names_given for x in TTL_FUNCS)):
             ln, (name, strs, flag, opt, num) = gen_ttl(rng)
+        elif k % 8 == 2 and all(x in fs for x in TUNE_FUNCS) and (names_given is None or any(x in names_given for x in TUNE_FUNCS)):
+            ln, (name, strs, flag, opt, num) = gen_tune(rng)
         else:
             ln, (name, strs, flag, opt) = gen_function(rng, [x for x in names if x in ARITY])
         try:
@@ -320,7 +369,8 @@ def run(rng, n, names=None, prebuilt=None):
         else:
             want = "err " + e[1]
             stats["exceptions"] += 1
-        stats[ln.split(" ")[1] if kind == 'F' else ln.split(" ")[0]] = stats.get(ln.split(" ")[1] if kind == 'F' else ln.split(" ")[0], 0) + 1
+        key_ = ln.split(" ")[1] if kind == 'F' else ln.split(" ")[0]
+        stats[key_] = stats.get(key_, 0) + 1
         if g != want:
             dis.append({"what": "fragment S: generated Lean and CPython disagree (translator or Base/PyOps.lean misrepresents Python)",
                         "line": ln, "python": want, "lean": g})
